@@ -25,9 +25,11 @@ CLAIMED = {
     'C06': ("6/C06", "Counts, identity of untouched operations, reset, idempotence, chain equation start(copy k) = max end over relation leaves of copy k-1 (z3 If-max), n*T clause, library concatenation clause."),
     'C07': ("6/C07", "Index clauses (0..N-1, per qubit, filters, tag partition, record position) on enumerated measurement programs with registries of own/parent circuits; time-order clause as a solver-decided conjunction over symbolic durations."),
     'C08': ("6/C08", "Exported program vs an independent translation of the program, record lookbacks of detectors/observables as unbounded symbolic integers (fakestim on symbolic paths, real stim in the twin), before/after unrolling clauses."),
+    'C09': ("6/C09", "Exported program executed on a symbolic-phase stabiliser tableau (signs = GF(2) affine forms over symbolic initial-state bits and fresh random-outcome variables); z3 decides record == prescribed terms and independence of detectors/observables from the random-outcome variables for all initial states at once."),
     'C10': ("6/C10", "No-overlap as one disjunctive validity query per path over the four global durations (unbounded, > 0), as constructed and after unrolling."),
     'C11': ("6/C11", "Flatten: same operation objects, no composite left, idempotence, readable (no relation cycle); library circuits: listing, schedule (term equality per object), acquisition indices and Stim program before/after."),
     'C12': ("6/C12", "Tiling, containment, disjointness, cover, translation and estimate clauses for unbounded symbolic round counts."),
+    'C13': ("6/C13", "Round counts symbolic in [0,R]: the constructor's case split is discovered by forks/enumeration, kernel arithmetic stays symbolic; per-ancilla index sets by tag vs kernel getters, per-state calibration blocks, cycle length, 0-round exception."),
     'C16': ("6/C16", "Class B (finite): tables of the real predicates are read on every run and z3 decides the equivalence with the statement's predicate for all subsets of <= 4 edges x idle qubits at once; the composition lemma and the generator are executed on the real code within the stated bounds."),
     'C17': ("6/C17", "Class B (finite): shipped tables are read into z3 lookup tables and each clause is a solver witness query over layer/gate/qubit indices; derived and composite descriptions are executed on bounded families of involved-qubit subsets."),
     'C19': ("6/C19", "Match/identity relations for unbounded symbolic ids and names; edge hash with uninterpreted hash functions; de-duplication on symbolic sequences."),
